@@ -123,6 +123,12 @@ CHECKS = {
         "Trusted: RealProcessor harness, instrumented payload subclasses; attached payloads carry the correct rows.",
         "DESIGN.md 3 C10",
     ),
+    "C19": (
+        "stateless preemption-bounded schedule exploration (CHESS style) of real threads at bytecode granularity + exhaustive sequential histories",
+        "Real threads issue name requests (direct, via leaf construction, make_leaf, materialized()) under a cooperative scheduler whose scheduling points are the CPython bytecode instructions inside the library; every schedule with at most 2 preemptions (thorough: 3 for the smaller harnesses) of six harnesses is executed to completion, plus all sequential histories up to length 3-4 over 3 engines; uuid4 is an injective fresh-value oracle; names must be pairwise distinct, carry the requested prefix and embed their own fresh draw.",
+        "Assumes uuid4 never repeats (explicit seam); bytecode interleavings over-approximate what the GIL permits; bounded preemptions.",
+        "DESIGN.md 2.5, 3 C19",
+    ),
 }
 
 NOT_YET = "check not built yet in this revision (planned, see DESIGN.md section 3)"
